@@ -16,6 +16,7 @@ def sh(cmd, cwd=None, env=None, timeout=7200):
     return p.returncode, p.stdout
 
 def verify(src, sid, crate, features=None, rustflags=None):
+    WT = "/tmp/seedwt-" + sid
     dst = os.path.join(ROOT, "seeded", sid)
     os.makedirs(dst, exist_ok=True)
     for f in ("patch.diff", "demo.rs", "meta.json"):
@@ -76,6 +77,7 @@ def run(sid, checks):
     mp = os.path.join(dst, "meta.json")
     meta = json.load(open(mp)) if os.path.exists(mp) else {}
     meta.setdefault("checks_run", {}).update(results)
+    meta.setdefault("checks_history", []).extend(dict(check=c, detected=r["detected"], exit=r["exit"], at=time.strftime("%Y-%m-%d %H:%M")) for c, r in results.items())
     json.dump(meta, open(mp, "w"), indent=1)
     # evidence files were rewritten by runs on a mutated tree: restore the committed ones
     sh("git checkout -- evidence", cwd=ROOT)
